@@ -293,55 +293,79 @@ def _const_alts(v):
     return out
 
 
-def r4_clamp_bounds(ctx, F):
+def _clamp_reason(F, fn, bi, t):
+    """(constant verdict | None, reason | None) for the clamp call terminating block bi of fn (fn may be an inlined view)"""
     import arms
+    P = prov.prov_of(fn)
+    a = P.call_args(bi)
+    lo, hi = a[1], a[2]
+    cl, ch = _const_expr(lo), _const_expr(hi)
+    if cl is not None and ch is not None:
+        return (cl, ch), None, lo, hi
+    why = None
+    # (a') bounds chosen together from constant pairs (`let (lo, hi) = if c { (1.0, 18.0) } else { (0.0, 10.0) }`): every combination is ordered
+    los, his = _const_alts(lo), _const_alts(hi)
+    if los and his and max(los) <= min(his):
+        why = 'each bound is one of a few constants (%s / %s) and every lower one is <= every upper one' % (sorted(los), sorted(his))
+    # (b) an established comparison of the variable bound with a constant
+    if cl is not None and why is None:
+        his_ = prov.show(prov.strip(hi, names={'from', 'into'}), maxdepth=10)
+        for c, lab in arms.bool_facts(fn, bi):
+            c = prov.strip(c, names={'likely', 'unlikely'})
+            if c[0] == 'binop' and c[1] in ('Gt', 'Ge', 'Lt', 'Le'):
+                l_, r_ = c[2], c[3]
+                op = c[1]
+                if lab == 'false':
+                    continue          # the negation of a float comparison also holds for NaN
+                if op in ('Lt', 'Le'):
+                    l_, r_, op = r_, l_, {'Lt': 'Gt', 'Le': 'Ge'}[op]
+                k_ = _const_expr(r_)
+                if k_ is not None and k_ >= cl and prov.show(prov.strip(l_, names={'from', 'into'}), maxdepth=10) == his_:
+                    why = 'the upper bound is known to be %s %g here (which also excludes NaN)' % ('>' if op == 'Gt' else '>=', k_)
+    # (c) X - d .. X + d'
+    if why is None:
+        bl, ol = _lin_offset(lo)
+        bh, oh = _lin_offset(hi)
+        if bl == bh and ol <= oh:
+            why = 'bounds are the same value shifted by %g and %g' % (ol, oh)
+    # (d) constant lower bound <= 0 and an upper bound that is non-negative by construction
+    if why is None and cl is not None and cl <= 0 and nonneg(F, hi):
+        why = 'lower bound %g, upper bound non-negative by construction (abs / squares / products of non-negative parts)' % cl
+    return None, why, lo, hi
+
+
+def r4_clamp_bounds(ctx, F):
+    import inline
     n = nvar = 0
+    callers = F.callers()
     for fn in F.fns:
-        P = None
         for bi, t in fn.calls():
             f = t['func']
             if f.get('name') != 'clamp' or f.get('krate') not in ('core', 'std') or len(t['args']) != 3:
                 continue
-            P = P or prov.prov_of(fn)
-            a = P.call_args(bi)
-            lo, hi = a[1], a[2]
-            cl, ch = _const_expr(lo), _const_expr(hi)
+            consts, why, lo, hi = _clamp_reason(F, fn, bi, t)
             n += 1
             key = 'clamp:%s:%s' % (fn.path, prov.show(hi, maxdepth=2)[:40])
-            if cl is not None and ch is not None:
+            if consts is not None:
+                cl, ch = consts
                 ctx.require(cl <= ch, 'C05-R4', key, 'constant bounds %g <= %g' % (cl, ch), fn.where(t.get('ln')),
                             bad='%s: clamp(%g, %g) has its bounds the wrong way round: it panics on every call' % (fn.path, cl, ch))
                 continue
             nvar += 1
-            why = None
-            # (a') bounds chosen together from constant pairs (`let (lo, hi) = if c { (1.0, 18.0) } else { (0.0, 10.0) }`): every combination is ordered
-            los, his = _const_alts(lo), _const_alts(hi)
-            if los and his and max(los) <= min(his):
-                why = 'each bound is one of a few constants (%s / %s) and every lower one is <= every upper one' % (sorted(los), sorted(his))
-            # (b) an established comparison of the variable bound with a constant
-            if cl is not None and why is None:
-                his = prov.show(prov.strip(hi, names={'from', 'into'}), maxdepth=10)
-                for c, lab in arms.bool_facts(fn, bi):
-                    c = prov.strip(c, names={'likely', 'unlikely'})
-                    if c[0] == 'binop' and c[1] in ('Gt', 'Ge', 'Lt', 'Le'):
-                        l_, r_ = c[2], c[3]
-                        op = c[1]
-                        if lab == 'false':
-                            continue          # the negation of a float comparison also holds for NaN
-                        if op in ('Lt', 'Le'):
-                            l_, r_, op = r_, l_, {'Lt': 'Gt', 'Le': 'Ge'}[op]
-                        k_ = _const_expr(r_)
-                        if k_ is not None and k_ >= cl and prov.show(prov.strip(l_, names={'from', 'into'}), maxdepth=10) == his:
-                            why = 'the upper bound is known to be %s %g here (which also excludes NaN)' % ('>' if op == 'Gt' else '>=', k_)
-            # (c) X - d .. X + d'
-            if why is None:
-                bl, ol = _lin_offset(lo)
-                bh, oh = _lin_offset(hi)
-                if bl == bh and ol <= oh:
-                    why = 'bounds are the same value shifted by %g and %g' % (ol, oh)
-            # (d) constant lower bound <= 0 and an upper bound that is non-negative by construction
-            if why is None and cl is not None and cl <= 0 and nonneg(F, hi):
-                why = 'lower bound %g, upper bound non-negative by construction (abs / squares / products of non-negative parts)' % cl
+            if why is None and not str(fn.j.get('vis')).startswith('Public') and callers.get(fn.path):
+                # a private helper: the ordering may be established by each of its callers (judged on the caller's body with the helper inlined)
+                reasons = []
+                for cfn, cbi, ct in callers[fn.path]:
+                    cv = inline.inlined(F, cfn, depth=2)
+                    sites = [(bj, t2) for bj, t2 in cv.calls() if t2['func'].get('name') == 'clamp' and t2.get('ln') == t.get('ln') and len(t2['args']) == 3]
+                    got = [_clamp_reason(F, cv, bj, t2) for bj, t2 in sites]
+                    if sites and all(g[0] is not None and g[0][0] <= g[0][1] or g[1] for g in got):
+                        reasons.append('%s: %s' % (cfn.path.split('::')[-1], '; '.join(sorted({g[1] or 'constants' for g in got}))))
+                    else:
+                        reasons = None
+                        break
+                if reasons:
+                    why = 'established by every caller — ' + ' | '.join(reasons)
             ctx.require(why is not None, 'C05-R4', key, '%s: clamp(%s, %s): %s' % (fn.path, prov.show(lo, maxdepth=2)[:40], prov.show(hi, maxdepth=2)[:60], why), fn.where(t.get('ln')),
                         bad='%s: clamp(%s, %s) — nothing establishes lower <= upper: `clamp` panics ("min > max") as soon as the upper bound drops below the lower one, '
                             'e.g. for a setting at the edge of its documented range' % (fn.path, prov.show(lo, maxdepth=3)[:60], prov.show(hi, maxdepth=5)[:200]))
